@@ -4,9 +4,10 @@ M-FMT: an executable model of the formatter (pkg/visitor/formatter/formatter.go)
 
 Every one of the 155 per-kind methods is translated by gofacts (tools/gofacts/fmtcode.go) into a list
 of instructions `FI` over the fields of the node (Gen/FmtCode.lean, regenerated on every run); the
-interpreter below gives the instructions their meaning.  The eight helpers of the formatter
-(addFreeFloating, addIndent, getFreeFloating, newToken, formatList, formatStmts, newSemicolonTkn,
-insert) are modelled by hand — their text is pinned by the translator — as is the traversal
+interpreter below gives the instructions their meaning.  The helpers of the formatter
+(addFreeFloating, addIndent, getFreeFloating, newToken with its sign-clash rule and `lastID`, formatList,
+formatStmts, newSemicolonTkn, insert, heredocLabel, heredocOpener) are modelled by hand — their text is
+pinned by the translator — as is the traversal
 (`n.F.Accept(f)` = run the child's own method on the child).
 
 The interpreter reads a node's tokens only through accessors (`curToks … |>.isEmpty`, the token's
@@ -47,6 +48,8 @@ inductive FI where
   | newTokReg (f id r : Nat)               -- n.F = f.newToken(id, local)
   | setFlag (i : Nat) (c : FC)             -- local := condition
   | setReg (r : Nat) (lit : List Nat)      -- local = []byte(lit)
+  | setRegLabel (r f : Nat)                -- local := heredocLabel(n.F)
+  | setRegOpener (r r2 : Nat) (nowdoc : Bool)  -- local = heredocOpener(local2, nowdoc)
   | clear (f : Nat)                        -- n.F = nil (token or token list)
   | ws (id : Nat) (lit : List Nat)         -- f.addFreeFloating(id, lit)
   | indent (up : Bool)                     -- f.indent++ / f.indent--
@@ -68,6 +71,7 @@ structure FSt where
   html : Bool := true          -- formatter.state == FormatterStateHTML (the zero value)
   indent : Int := 0
   ff : List FF := []
+  last : Nat := 0              -- formatter.lastID: the token created last, 0 once the pending list was taken
   deriving Repr, DecidableEq, Inhabited
 
 abbrev FRes := Option (Tree × FSt)
@@ -82,6 +86,8 @@ structure FCfg where
   nopSemi : Nat                -- field number of StmtNop.SemiColonTkn
   tWs : Nat                    -- token.T_WHITESPACE
   tOpenTag : Nat               -- token.T_OPEN_TAG
+  tInc : Nat                   -- token.T_INC
+  tDec : Nat                   -- token.T_DEC
 
 def u8s (l : List Nat) : Bytes := l.map UInt8.ofNat
 
@@ -99,11 +105,16 @@ def openTagFF (c : FCfg) : FF := { id := c.tOpenTag, val := [60, 63, 112, 104, 1
 
 /-- getFreeFloating: the pending list (behind `<?php ` when still in HTML state); the list is reset -/
 def FSt.getFF (c : FCfg) (s : FSt) : List FF × FSt :=
-  ((if s.html then openTagFF c :: s.ff else s.ff), { s with html := false, ff := [] })
+  ((if s.html then openTagFF c :: s.ff else s.ff), { s with html := false, ff := [], last := 0 })
+
+/-- `-` behind `-`, `--` behind `-`, `+` behind `+`, `++` behind `+` with nothing pending: a blank goes between -/
+def signClash (c : FCfg) (s : FSt) (id : Nat) : Bool :=
+  s.ff.isEmpty && ((s.last == 45 && (id == 45 || id == c.tDec)) || (s.last == 43 && (id == 43 || id == c.tInc)))
 
 def FSt.newToken (c : FCfg) (s : FSt) (id : Nat) (val : Bytes) : Tok × FSt :=
-  let (l, s') := s.getFF c
-  ({ uid := 0, id := id, val := val, ff := l }, s')
+  let s0 := if signClash c s id then s.addWs c.tWs [32] else s
+  let (l, s') := s0.getFF c
+  ({ uid := 0, id := id, val := val, ff := l }, { s' with last := id })
 
 /-! ### the node under construction -/
 
@@ -200,6 +211,26 @@ def stmtsAll (c : FCfg) : List KFn → FSt → Option (List Tree × FSt)
         | none => none
         | some (ts, s2) => some (t :: ts, s2)
 
+def eot : Bytes := [69, 79, 84]
+
+def findSub (v pat : Bytes) : Nat → Option Nat
+  | 0 => none
+  | fuel + 1 => if pat.isPrefixOf v then some 0 else
+      match v with
+      | [] => none
+      | _ :: r => (findSub r pat fuel).map (· + 1)
+
+def labelCut : List UInt8 := [32, 9, 13, 10, 34, 39]
+
+/-- heredocLabel of formatter.go on the opener's bytes: what follows the first `<<<`, without blanks, line
+    ends and quotes at either end; EOT when nothing is left -/
+def heredocLabel (v : Bytes) : Bytes :=
+  let v1 := match findSub v [60, 60, 60] (v.length + 1) with
+    | some i => v.drop (i + 3)
+    | none => v
+  let t := ((v1.dropWhile (labelCut.contains ·)).reverse.dropWhile (labelCut.contains ·)).reverse
+  if t.isEmpty then eot else t
+
 /-- keep a token, replace its free-floating list (the model's output is position-free) -/
 def keepTok (t : Tok) (ff : List FF) : Tok := { uid := 0, id := t.id, val := t.val, ff := ff }
 
@@ -220,6 +251,14 @@ def execI : FI → NSt → Option NSt
   | .newTokReg f id r, n => let (t, s) := n.st.newToken c id (u8s (n.reg r)); some { n.setTok f [t] with st := s }
   | .setFlag i cd, n => some { n with flags := (i, evalFC orig nn fns n cd) :: n.flags }
   | .setReg r lit, n => some { n with regs := (r, lit) :: n.regs }
+  | .setRegLabel r f, n =>
+    let lbl := match curToks orig n.w f with
+      | t :: _ => heredocLabel t.val
+      | [] => eot
+    some { n with regs := (r, lbl.map (·.toNat)) :: n.regs }
+  | .setRegOpener r r2 nowdoc, n =>
+    let q : List Nat := if nowdoc then [39] else []
+    some { n with regs := (r, [60, 60, 60] ++ q ++ n.reg r2 ++ q ++ [10]) :: n.regs }
   | .clear f, n => some (n.setTok f [])
   | .ws id lit, n => some { n with st := n.st.addWs id lit }
   | .indent up, n => some { n with st := { n.st with indent := if up then n.st.indent + 1 else n.st.indent - 1 } }
